@@ -96,6 +96,11 @@ class Ctx:
         """fail closed when a rule sees fewer instances than confirmed by hand."""
         n = sum(1 for o in self.obligations if o.rule == rule)
         self.floors.append((rule, n, minimum))
+        if n < minimum and any(o.rule == rule and not o.ok and o.recognised for o in self.obligations):
+            # the rule has already identified a contradiction of the property among the instances it found: that verdict stands,
+            # the missing instances are reported as not recognised next to it
+            self.add(rule, f'{rule}:instances', None, (self.obligations[-1].file, 1), f'only {n} instance(s) found, at least {minimum} were confirmed by hand: some instances are not in the expected form', 'floor')
+            return
         if n < minimum:
             raise AnalysisError(
                 f'rule {rule}: only {n} instance(s) found, at least {minimum} were confirmed by hand on the '
